@@ -379,7 +379,7 @@ type StepResult struct {
 type CaseResult struct {
 	Id      int64        `json:"id"`
 	Status  string       `json:"status"`
-	Steps   int          `json:"steps"`   // steps executed and compared
+	Steps   int          `json:"steps"` // steps executed and compared
 	Known   []StepResult `json:"known,omitempty"`
 	Fail    *StepResult  `json:"fail,omitempty"`
 	Changed bool         `json:"changed"` // some step changed the state or failed (non-trivial)
